@@ -269,3 +269,9 @@ Proof.
 Qed.
 
 End Proofs.
+
+(* statement of Properties/C03.v: c03_accounting *)
+Lemma accounting_all H expected nblocks plen n l :
+  let s := run H expected nblocks plen (init n) l in
+  (st_count s, st_alloc s) = acct plen 0 (st_pieces s).
+Proof. exact (proj2 (run_inv H expected nblocks plen n l)). Qed.
